@@ -155,10 +155,11 @@ func runHTTP(e *c08Env) *drv.Failure {
 	}
 	// serverReq delivers a genuine key-set request to the server.
 	serverReq := func(what string, fl c08HFlight) *drv.Failure {
-		blocked := false
+		blocked, waiting := false, 0
 		var err error
 		if n, capa := codec.VerifPending(sv.cdc.Codec); n == capa {
 			// the server only drains its backlog when it encodes a frame
+			waiting = n
 			done := make(chan error, 1)
 			go func() {
 				_, _, derr := decodeAtServer(sv.cdc)(fl.b, 0)
@@ -198,7 +199,7 @@ func runHTTP(e *c08Env) *drv.Failure {
 		}
 		if blocked {
 			return drv.Failf("decode-blocks", "update-backlog-full:"+c.Flow,
-				"%s: decoding a key-set request did not return while %d earlier key sets were waiting for the next encoded frame (it returned only after the harness encoded a frame)", what, len(sv.states)-int(codec.VerifSeqNum(sv.cdc.Codec)))
+				"%s: decoding a key-set request did not return while %d earlier key sets were waiting for the next encoded frame (it returned only after the harness encoded a frame)", what, waiting)
 		}
 		return nil
 	}
@@ -241,6 +242,9 @@ func runHTTP(e *c08Env) *drv.Failure {
 	}
 	sendReq := func(what string, u []int) (c08HFlight, *drv.Failure) {
 		keys := channel.Keys(e.realKeys(u, false))
+		if len(keys) == 0 && c.Flow != "writer" {
+			return c08HFlight{}, drv.Failf("harness", "empty-key-request", "%s: the %s endpoint ignores requests without keys", what, c.Flow)
+		}
 		b, err := encodeReq(keys)
 		if err != nil {
 			return c08HFlight{}, drv.Failf("harness", "encode-request", "%s: %v", what, err)
